@@ -39,10 +39,9 @@ Lemma star_cons_inv a u : lang (Star a) u -> forall c v, u = c :: v ->
 Proof.
   intros H. remember (Star a) as r eqn:Er. revert a Er.
   induction H; intros a0 Er; try discriminate; injection Er as ->; intros c v E.
-  - discriminate.
-  - destruct s as [|c' s'].
-    + cbn in E. eapply IHlang2; eauto.
-    + cbn in E. injection E as -> <-. exists s', t. auto.
+  destruct s as [|c' s'].
+  - cbn in E. eapply IHlang2; eauto.
+  - cbn in E. injection E as -> <-. exists s', t. auto.
 Qed.
 
 Lemma star_app a s t : lang (Star a) s -> lang (Star a) t -> lang (Star a) (s ++ t).
@@ -50,7 +49,7 @@ Proof.
   intros H. remember (Star a) as r eqn:Er. revert a Er t.
   induction H; intros a0 Er u Hu; try discriminate; injection Er as ->.
   - exact Hu.
-  - rewrite <- app_assoc. apply LStarS; [assumption|]. apply IHlang2; auto.
+  - rewrite <- app_assoc. apply LStarS; [assumption|]. apply (IHlang2 a0 eq_refl). exact Hu.
 Qed.
 
 (* ---------- nullable ---------- *)
@@ -241,8 +240,7 @@ Qed.
 
 Corollary full_match_false r s : full_match r s = false <-> ~ lang r s.
 Proof.
-  rewrite <- full_match_spec. destruct (full_match r s); split; intros H; try congruence.
-  exfalso. apply H. reflexivity.
+  rewrite <- full_match_spec. destruct (full_match r s); split; intros H; congruence.
 Qed.
 
 (* literal strings *)
@@ -263,7 +261,7 @@ Proof.
   - intros H. remember (Star (Cls cs)) as r eqn:Er. revert Er.
     induction H; intros Er; try discriminate; injection Er as ->.
     + reflexivity.
-    + inversion H; subst. cbn [app forallb]. rewrite H3. cbn [andb]. apply IHlang2. reflexivity.
+    + inversion H as [| |cs' c' Hm| | | | | | | | |]; subst. cbn [List.app forallb]. rewrite Hm. cbn [andb]. apply IHlang2. reflexivity.
   - induction s as [|c s IH]; cbn [forallb]; intros H.
     + constructor.
     + apply andb_true_iff in H. destruct H as [H1 H2].
@@ -274,7 +272,7 @@ Lemma lang_plus_cls cs s : lang (Plus (Cls cs)) s <-> forallb (cmem cs) s = true
 Proof.
   split.
   - intros H. apply lang_plus in H. destruct H as (x & t & -> & Hx & Ht).
-    inversion Hx; subst. apply lang_star_cls in Ht. cbn [app forallb]. rewrite H1, Ht. split; [reflexivity | discriminate].
+    inversion Hx as [| |cs' c' Hm| | | | | | | | |]; subst. apply lang_star_cls in Ht. cbn [List.app forallb]. rewrite Hm, Ht. split; [reflexivity | discriminate].
   - intros [H Hne]. destruct s as [|c s]; [congruence|].
     cbn [forallb] in H. apply andb_true_iff in H. destruct H as [H1 H2].
     change (c :: s) with ([c] ++ s). constructor; [constructor; assumption | apply lang_star_cls; assumption].
